@@ -327,24 +327,25 @@ impl<E: Effect, R: CommandReceiver<E>, S: EventSender<E>> Worker<E, R, S> {
                 captures,
                 argument,
             } => {
-                // Extract heap data from all captures and argument
-                let mut all_heap_data = Vec::new();
-                let mut extracted_captures = Vec::new();
-
-                for capture in captures {
-                    let (extracted, mut heap) = self
-                        .executor
-                        .extract_heap_data(&capture)
-                        .map_err(|e| EnvironmentError::HeapData(format!("{:?}", e)))?;
-                    extracted_captures.push(extracted);
-                    all_heap_data.append(&mut heap);
-                }
-
-                let (extracted_argument, mut arg_heap) = self
+                // Extract heap data from all captures and the argument *together*, so that the
+                // compacted heap indices inside every extracted value refer to the one shared
+                // `heap` vector sent with the event (extracting them one by one numbers each
+                // value's binaries from 0 again, aliasing them to the first value's data).
+                let capture_count = captures.len();
+                let mut bundle = captures;
+                bundle.push(argument);
+                let (extracted, all_heap_data) = self
                     .executor
-                    .extract_heap_data(&argument)
+                    .extract_heap_data(&Value::tuple(quiver_core::types::NIL, bundle))
                     .map_err(|e| EnvironmentError::HeapData(format!("{:?}", e)))?;
-                all_heap_data.append(&mut arg_heap);
+                let mut extracted_captures = match extracted {
+                    Value::Tuple(_, fields) => (*fields).clone(),
+                    _ => unreachable!("extract_heap_data preserves the value's shape"),
+                };
+                let extracted_argument = extracted_captures
+                    .pop()
+                    .expect("bundle holds the argument last");
+                debug_assert_eq!(extracted_captures.len(), capture_count);
 
                 self.sender.send(Event::SpawnAction {
                     caller,
